@@ -523,6 +523,10 @@ class BaseNetQASMConnection(abc.ABC):
 
         subroutine = self._builder.subrt_compile_subroutine(protosubroutine)
 
+        # It is not known when this subroutine will run: its register outcomes are read
+        # when the application asks for them.
+        self._builder._pending_reg_futures = []
+
         # The pending operations (including the declaration and return of their
         # arrays and registers) are now owned by the compiled subroutine, exactly as
         # after a flush. Reset the builder bookkeeping so that later subroutines do not
@@ -551,10 +555,29 @@ class BaseNetQASMConnection(abc.ABC):
 
         subroutine.instantiate(self.app_id)
 
+        reg_futures = self._builder._pending_reg_futures
+        self._builder._pending_reg_futures = []
+
         # Commit the subroutine to the quantum device
         self.commit_subroutine(subroutine, block, callback)
 
+        # Outcomes that this subroutine leaves in registers: the next subroutine uses
+        # the same registers again, so their handles must get their values before that.
+        self._unread_reg_futures = reg_futures
+        if block:
+            self._read_reg_futures()
+
         self._builder._reset()
+
+    def _read_reg_futures(self) -> None:
+        """Let the handles of register outcomes of the last subroutine take their values."""
+        reg_futures = getattr(self, "_unread_reg_futures", [])
+        self._unread_reg_futures = []
+        for reg_future in reg_futures:
+            try:
+                reg_future._try_get_value()
+            except Exception:  # no result available (yet): the handle stays unresolved
+                pass
 
     def commit_subroutine(
         self,
@@ -563,6 +586,9 @@ class BaseNetQASMConnection(abc.ABC):
         callback: Optional[Callable] = None,
     ) -> None:
         self._logger.debug(f"Commiting compiled subroutine:\n{subroutine}")
+
+        # Register outcomes of the previous subroutine (if it was not waited for)
+        self._read_reg_futures()
 
         self._commit_message(
             msg=SubroutineMessage(subroutine=subroutine),
